@@ -30,7 +30,7 @@ func init() {
 
 func init() {
 	Registry["C18"] = func(c *Ctx) {
-		c.R.Rule = "scenario = (graph of <=4 nodes, optional failing target, fail-fast, num_workers) plus one external cancel event (what SIGINT/SIGTERM trigger via SetupCommand's context) delivered by a dedicated goroutine at ANY scheduling point; real Walker + pool under every choice sequence with <= d deviations; oracles: Walk returns, no command starts after the cancel was delivered, an interrupt with unfinished targets surfaces as an error. Non-trivial = at least one command ran. Process half (real binary, real signals): a workspace with num_workers=1 and five short targets; a fault-free run of the instrumented binary logs every instance of every file-system call site from loading to shutdown; for every instance (quick: <= 3 per call site, alternating SIGINT/SIGTERM; thorough: every instance with both signals) the process sends the signal to itself exactly there and writes a marker into the command trace: grog must exit within 60 s, at most one queued command may still start after the marker, the exit status is non-zero when targets were unfinished, the cache holds no more target results than commands that finished, and an uninstrumented follow-up build acquires the (stale) lock, exits 0 and produces the outputs of a from-scratch build. Finally the running command itself interrupts grog (SIGINT/SIGTERM, with and without a shell that traps the signals): non-zero exit, dependant not started, no cache entry, and the shell does not survive (it would create a marker file 2 s later)."
+		c.R.Rule = "scenario = (graph of <=4 nodes, optional failing target, fail-fast, num_workers) plus one external cancel event (what SIGINT/SIGTERM trigger via SetupCommand's context) delivered by a dedicated goroutine at ANY scheduling point; real Walker + pool under every choice sequence with <= d deviations; oracles: Walk returns, no command starts after the cancel was delivered, an interrupt with unfinished targets surfaces as an error. Non-trivial = at least one command ran. Process half (real binary, real signals): a workspace with num_workers=1, five short targets and a directory-output target; a fault-free run of the instrumented binary logs every instance of every file-system call site from loading to shutdown; for every instance (quick: <= 3 per call site, alternating SIGINT/SIGTERM; thorough: every instance with both signals) the process sends the signal to itself exactly there and writes a marker into the command trace: grog must exit within 60 s, at most one queued command may still start after the marker, the exit status is non-zero when targets were unfinished, the cache holds no more target results than commands that finished and passes the offline audit (no result referencing a blob that was not stored), and an uninstrumented follow-up build acquires the (stale) lock, exits 0 and produces the outputs of a from-scratch build. Finally the running command itself interrupts grog (SIGINT/SIGTERM, with and without a shell that traps the signals): non-zero exit, dependant not started, no cache entry, and the shell does not survive (it would create a marker file 2 s later)."
 		c.R.Assume("the signal is modelled as cancellation of the root context (console.SetupCommand does exactly that on SIGINT/SIGTERM)", "commands are stubs that, like exec.CommandContext, do not start under a cancelled context and are killed when it is cancelled")
 		walkCheckBudget("C18", []string{"C18:", "C04:walk-never-returns", "C04:panic"}, 2, 3, 35, 400)(c)
 		c18Signals(c)
